@@ -279,7 +279,7 @@ PROPS["C16"] = dict(
 
 def rule_obj(body, I, M):
     i = I.get("I", "")
-    if i == "def" or body.startswith("T ") or body.startswith("A "):
+    if i == "def" or body.startswith("T ") or body.startswith("A ") or body.startswith("Y "):
         return dict(corr_ok=True, prop_ok=True, nontrivial=False, bucket="def", why="")
     if _bad_impl(i):
         return dict(corr_ok=False, prop_ok=False, nontrivial=True, bucket="crash", why="implementation " + i)
@@ -290,7 +290,7 @@ def rule_obj(body, I, M):
     s = M.get("S")
     if prop_ok and s is not None and s != i:
         prop_ok, why = False, "implementation %s differs from specification %s" % (i, s)
-    return dict(corr_ok=corr_ok, prop_ok=prop_ok, nontrivial=("," in i), bucket=i.rsplit("/", 1)[-1][-4:], why=why)
+    return dict(corr_ok=corr_ok, prop_ok=prop_ok, nontrivial=("," in i) or len(i.split("/")[0]) >= 2, bucket=i.rsplit("/", 1)[-1][-4:], why=why)
 RULES["obj"] = rule_obj
 
 PROPS["C07"] = dict(
@@ -305,4 +305,17 @@ PROPS["C07"] = dict(
               "arrays, maps incl. struct keys, pointers, untyped slots, structs with omitempty/ignored/embedded/embedded-pointer fields, "
               "unions, transforms, unsupported kinds) x 5 atlas configurations, type-directed random values with nil at every position; "
               "real obj.Marshaller stepped under recover with a step cap; non-trivial = more than one token",
+)
+
+PROPS["C13"] = dict(
+    disabled=True, na_reason="model and correspondence tie built; theorems are being proved",
+    level="proof",
+    lean_module="RefmtProofs.Props.C13",
+    theorems=[],
+    streams=[dict(name="unmarshal", gen="unmarshal", rule="obj")],
+    title="the unmarshaller accepts exactly the token streams that fit the target",
+    claim="(work in progress)",
+    rule_text="token sequences x target types: prefix-pruned exhaustive sequences (<= 3, thorough 4) over a 39-symbol token alphabet with "
+              "matching / non-matching keys and tags, for every zoo target under 4 atlases; integers of every magnitude into every numeric "
+              "kind (C09); real obj.Unmarshaller stepped token by token under recover; flags and the resulting Go value compared",
 )
